@@ -5,8 +5,8 @@
 (* tokens none/&R/&U, weights, comments before / inside / behind the         *)
 (* statement, metadata comments, internal labels, underscores, case          *)
 (* variants), each block with or without a TRANSLATE table, a CHARACTERS     *)
-(* block at each position of CharsAt (0 = none, 1 = before the TREES blocks, *)
-(* 2 = behind them).  TLC checks that the route definitions agree pairwise   *)
+(* block (followed by a SETS block) at each position of CharsAt (0 = none,   *)
+(* 1 = before the TREES blocks, 2 = behind them).  TLC checks that the route definitions agree pairwise   *)
 (* on every such document under every option set, and dumps the documents    *)
 (* for the replay against the real routes.                                   *)
 EXTENDS ReadRoutes
@@ -19,13 +19,13 @@ NoLen(n) == [i \in 1..n |-> -1]
 NoLab(n) == [i \in 1..n |-> ""]
 \* trees: preorder parent array p, leaf labels lf (left to right), node labels il, lengths ln (x LScale, -1 none)
 T1 == [p |-> <<0, 1, 2, 2, 1>>, lf |-> <<"a", "b", "c">>, il |-> NoLab(5), ln |-> NoLen(5)]                 \* ((a,b),c)
-T2 == [p |-> <<0, 1, 1, 3, 3>>, lf |-> <<"a", "b", "c">>, il |-> NoLab(5), ln |-> <<-1, 4, 8, 12, 4>>]       \* (a:1,(b:3,c:1):2)
+T2 == [p |-> <<0, 1, 1, 3, 3>>, lf |-> <<"a", "b", "c">>, il |-> NoLab(5), ln |-> <<-1, 4, 8, 12, 1>>]       \* (a:1,(b:3,c:0.25):2)
 T3 == [p |-> <<0, 1, 1, 1>>, lf |-> <<"c", "a", "b">>, il |-> NoLab(4), ln |-> NoLen(4)]                      \* (c,a,b)
 T4 == [p |-> <<0, 1, 2, 2, 1>>, lf |-> <<"t_a", "b", "c">>, il |-> <<"r", "x_1", "", "", "">>, ln |-> <<0, 4, 4, 8, 12>>]
 T5 == [p |-> <<0, 1, 1, 3, 3>>, lf |-> <<"A", "c", "b">>, il |-> <<"", "", "", "y", "">>, ln |-> NoLen(5)]    \* case variant of a
 T6 == [p |-> <<0, 1, 2, 2, 1, 5, 5>>, lf |-> <<"a", "b", "c", "d">>, il |-> NoLab(7), ln |-> <<-1, 4, 4, 4, 4, 8, 8>>]
 Stmt(rt, w, cpre, cpost, cin, caft, tree) ==
-    [name |-> "", rt |-> rt, w |-> w, cpre |-> cpre, cpost |-> cpost, cin |-> cin, caft |-> caft, tree |-> tree]
+    [name |-> "", sym |-> "label", rt |-> rt, w |-> w, cpre |-> cpre, cpost |-> cpost, cin |-> cin, caft |-> caft, tree |-> tree]
 Pool == <<
     Stmt("", NoWeight, <<>>, <<>>, <<>>, <<>>, T1),
     Stmt("R", <<1, 2>>, <<>>, <<P("c1")>>, <<>>, <<P("z1")>>, T2),
@@ -47,8 +47,11 @@ Uniq(q, seen) == IF q = <<>> THEN <<>>
 MkDoc(specs, chars) ==
     LET nb == Len(specs)
         before(b) == SumSeq([k \in 1..(b - 1) |-> Len(specs[k].vs)])
+        caseVariant == \E b \in 1..nb : \E i \in 1..Len(specs[b].vs) : \E j \in 1..Len(Pool[specs[b].vs[i]].tree.lf) : Pool[specs[b].vs[i]].tree.lf[j] = "A"
+        \* in a block without TRANSLATE every other statement names its taxa by taxon number (position in the TAXA block)
         mkStmt(b, i) == LET s == Pool[specs[b].vs[i]] IN
                         [s EXCEPT !.name = "t" \o ToString(b) \o ToString(i),
+                                  !.sym = IF ~specs[b].tr /\ ~caseVariant /\ (b + i) % 2 = 1 THEN "number" ELSE "label",
                                   !.tree.ln[2] = 4 * (before(b) + i)]
         mkBlock(b) == [kind |-> "trees", title |-> IF b = 1 THEN "" ELSE "trees" \o ToString(b),
                        translate |-> specs[b].tr,
@@ -61,8 +64,12 @@ MkDoc(specs, chars) ==
         \* a matrix with a row for each would not be a valid document
         mt == SelectSeq(taxa, LAMBDA x : x # "A")
         cb == [kind |-> "chars", title |-> "cm1", rows |-> [j \in 1..Len(mt) |-> [lab |-> mt[j], seq |-> IF j % 2 = 1 THEN "ACGT" ELSE "A-GT"]]]
+        \* a SETS block behind the matrix (only the routes that read characters parse it)
+        sb(allLast) == [kind |-> "sets", link |-> "",
+                        charsets |-> IF allLast THEN <<[name |-> "first", spec |-> "1-2"], [name |-> "every", spec |-> "ALL"]>>
+                                     ELSE <<[name |-> "every", spec |-> "ALL"], [name |-> "rest", spec |-> "2-."]>>]
     IN [taxa |-> taxa,
-        blocks |-> CASE chars = 0 -> tb [] chars = 1 -> <<cb>> \o tb [] chars = 2 -> tb \o <<cb>>]
+        blocks |-> CASE chars = 0 -> tb [] chars = 1 -> <<cb, sb(TRUE)>> \o tb [] chars = 2 -> tb \o <<cb, sb(FALSE)>>]
 
 \* two steps, so that TLC's workers share the work: the initial states only choose the block
 \* specifications (doc = NoDoc); the one successor of each is the document itself
